@@ -701,7 +701,152 @@ def case_joint(ctx, inp):
     ctx.branch(f"joint×{min(len(arrs), 6)}" + ("+" if len(arrs) > 6 else ""))
 
 
-CASES = {"joint": case_joint, "plan": case_plan, "depth": case_depth, "blsched": case_blsched, "reduce": case_reduce,
+# ---------------------------------------------------------------------------------------------
+# shared blocks: a reduction must not damage the blocks it reads (they may be read again)
+# ---------------------------------------------------------------------------------------------
+
+def _shared_target(da, d, t):
+    k = t["kind"]
+    if k == "quant":
+        if "quantile" in t["op"]:
+            return getattr(da, t["op"])(d, t["q"], axis=t["axis"], keepdims=t["keepdims"], method=t.get("method", "linear"))
+        return getattr(da, t["op"])(d, axis=t["axis"], keepdims=t["keepdims"])
+    if k == "pct":
+        return da.percentile(d, t["q"], method=t.get("method", "linear"), internal_method="dask")
+    if k == "topk":
+        return (da.argtopk if t["arg"] else da.topk)(d, t["k"], axis=t["axis"], split_every=t.get("split_every"))
+    if k == "reduce":
+        return getattr(da, t["op"])(d, axis=t["axis"], keepdims=t["keepdims"], split_every=t.get("split_every"))
+    if k == "arg":
+        return getattr(da, t["op"])(d, axis=t["axis"], keepdims=t["keepdims"])
+    if k == "cum":
+        return getattr(da, t["op"])(d, axis=t["axis"], method=t["method"])
+    raise KeyError(k)
+
+
+def _shared_ref(a, t):
+    """NumPy value of the target (None: only its side effects are examined)"""
+    k = t["kind"]
+    if k == "quant":
+        if "quantile" in t["op"]:
+            return getattr(np, t["op"])(a, t["q"], axis=t["axis"], keepdims=t["keepdims"], method=t.get("method", "linear"))
+        return getattr(np, t["op"])(a, axis=t["axis"], keepdims=t["keepdims"])
+    if k == "topk" and not t["arg"]:
+        srt = np.sort(a, axis=t["axis"])
+        sl = [slice(None)] * a.ndim
+        if t["k"] > 0:
+            sl[t["axis"]] = slice(None, None, -1)
+            srt = srt[tuple(sl)]
+        sl[t["axis"]] = slice(0, abs(t["k"]))
+        return srt[tuple(sl)]
+    if k in ("reduce", "arg"):
+        return getattr(np, t["op"])(a, axis=t["axis"], keepdims=t["keepdims"])
+    if k == "cum":
+        return getattr(np, t["op"])(a, axis=t["axis"])
+    return None
+
+
+def _follow_ups(a):
+    """(label, dask function, numpy function): other consumers of the same blocks"""
+    nan = a.dtype.kind == "f"
+    p = "nan" if nan else ""
+    last = a.ndim - 1
+    out = [
+        (f"{p}cumsum(axis=0)", lambda da, d: getattr(da, p + "cumsum")(d, axis=0), lambda x: getattr(np, p + "cumsum")(x, axis=0)),
+        (f"{p}cumsum(axis=0, blelloch)", lambda da, d: getattr(da, p + "cumsum")(d, axis=0, method="blelloch"),
+         lambda x: getattr(np, p + "cumsum")(x, axis=0)),
+        (f"{p}argmax(axis=0)", lambda da, d: getattr(da, p + "argmax")(d, axis=0), lambda x: getattr(np, p + "argmax")(x, axis=0)),
+        (f"{p}argmin(axis={last})", lambda da, d: getattr(da, p + "argmin")(d, axis=last), lambda x: getattr(np, p + "argmin")(x, axis=last)),
+        (f"{p}sum(axis={last})", lambda da, d: getattr(da, p + "sum")(d, axis=last), lambda x: getattr(np, p + "sum")(x, axis=last)),
+        (f"{p}max(axis=0, split_every=2)", lambda da, d: getattr(da, p + "max")(d, axis=0, split_every=2),
+         lambda x: getattr(np, p + "max")(x, axis=0)),
+        ("the array itself", lambda da, d: d, lambda x: x),
+    ]
+    return out
+
+
+def case_shared(ctx, inp):
+    """A reduction reads blocks that other tasks read too (the graph of a from_array array holds them, a persisted
+    collection holds them, an intermediate is shared inside one compute): after / together with the target
+    reduction, every other reduction of the same array — and the array itself — must still equal NumPy computed from a
+    pristine copy that dask never saw."""
+    import dask
+    da = _da()
+    pristine = dec_arr(inp["a"])
+    chunks = tuple(tuple(c) for c in inp["chunks"])
+    t, scen = inp["target"], inp["scenario"]
+    tname = t.get("op") or ("argtopk" if t.get("arg") else t["kind"])
+    fus = _follow_ups(pristine)
+    fus = [fus[i] for i in inp["follow"]] + [fus[-1]]
+
+    def same(label, got, want):
+        got, want = np.asarray(got), np.asarray(want)
+        if got.shape != want.shape or not U.same_values(got, want, want.dtype.kind in "iub", _scale("sum", pristine) * 4 + 4,
+                                                        _rtol(got, want)):
+            ctx.fail(f"shared/{scen}: {label} differs from NumPy (target {tname}"
+                     f"{', keepdims' if t.get('keepdims') else ''}{', single-chunk axis' if inp.get('single') else ''})",
+                     observed=got.tolist() if got.size <= 64 else list(got.shape),
+                     expected=want.tolist() if want.size <= 64 else list(want.shape))
+            return False
+        return True
+
+    def ref_of(fn, x):
+        with warnings.catch_warnings():
+            warnings.simplefilter("ignore")
+            try:
+                return fn(x)
+            except Exception:   # noqa: BLE001 — NumPy raises (all-NaN slice): nothing to compare
+                return None
+
+    with warnings.catch_warnings():
+        warnings.simplefilter("ignore")
+        if scen in ("seq", "persist"):
+            if scen == "seq":
+                d, base = da.from_array(pristine.copy(), chunks=chunks), pristine
+            else:
+                d = (da.from_array(pristine.copy(), chunks=chunks) * 2).persist(scheduler="sync")
+                base = pristine * 2
+            want = ref_of(lambda x: _shared_ref(x, t), base)
+            got = U.sync_compute(_shared_target(da, d, t))
+            if want is not None:
+                same(f"{tname} itself", got, want)
+            for label, dfun, nfun in fus:
+                w = ref_of(nfun, base)
+                if w is not None and not same(f"{label} after {tname}", U.sync_compute(dfun(da, d)), w):
+                    break
+        elif scen == "joint":
+            y = da.from_array(pristine.copy(), chunks=chunks) + 1
+            base = pristine + 1
+            order = inp.get("order", 0)
+            fus = [f for f in fus if ref_of(f[2], base) is not None]
+            cols = [_shared_target(da, y, t)] + [dfun(da, y) for _, dfun, _ in fus]
+            idx = list(range(len(cols)))
+            if order:                       # the target last / in the middle: another traversal order of the shared graph
+                idx = idx[1:order + 1] + [0] + idx[order + 1:]
+            got = dask.compute(*[cols[i] for i in idx], scheduler="sync")
+            got = dict(zip(idx, got))
+            want = ref_of(lambda x: _shared_ref(x, t), base)
+            if want is not None:
+                same(f"joint {tname}", got[0], want)
+            for j, (label, _, nfun) in enumerate(fus, start=1):
+                w = ref_of(nfun, base)
+                if w is not None and not same(f"{label} computed together with {tname}", got[j], w):
+                    break
+        elif scen == "expr":
+            z = da.from_array(pristine.copy(), chunks=chunks)
+            want = ref_of(lambda x: x - _shared_ref(x, t), pristine)
+            if want is not None:
+                same(f"x - {tname}(x, keepdims=True)", U.sync_compute(z - _shared_target(da, z, t)), want)
+                same(f"{tname}(x, keepdims=True) - x", U.sync_compute(_shared_target(da, z, t) - z), -want)
+        else:
+            raise KeyError(scen)
+    ctx.branch(f"shared:{scen}")
+    ctx.branch(f"shared target {t['kind']}")
+    if inp.get("single") and t.get("keepdims"):
+        ctx.branch("shared: keepdims + reduced axis in ONE chunk (the block object itself reaches the chunk function)")
+
+
+CASES = {"joint": case_joint, "shared": case_shared, "plan": case_plan, "depth": case_depth, "blsched": case_blsched, "reduce": case_reduce,
          "arg": case_arg, "cum": case_cum, "topk": case_topk, "quant": case_quant}
 CASES = {k: U.pure_sources(v) for k, v in CASES.items()}
 
@@ -945,6 +1090,61 @@ def gen_joint(ctx, n):
                         "chunks2": [list(c) for c in U.rand_chunks(rng, shape)]}
 
 
+def gen_shared(ctx, n):
+    """targets that sort / partition (median, quantile, percentile, topk, argtopk) and ordinary ones × the scenarios in
+    which a block is read more than once; the reduced axis lies in ONE chunk in most cases and keepdims is mostly on
+    (map_blocks / the chunk function then receives the upstream block object itself, not a concatenated copy)."""
+    rng = ctx.rng
+    for i in range(n):
+        nd = rng.choice([1, 2, 2, 2, 3])
+        shape = tuple(rng.randint(2, 7) for _ in range(nd))
+        if rng.random() < 0.15:
+            shape = (rng.randint(9, 30),) + shape[1:]
+        kind = rng.choice(["float", "float", "nan", "int"])
+        if kind == "int":
+            a = np.array(rng.sample(range(-600, 600), int(np.prod(shape))), dtype=np.int64).reshape(shape)
+        else:
+            a = U.rand_float_array(rng, shape, nan_p=0.08 if kind == "nan" else 0.0, dup=False)
+        axis = rng.randrange(nd)
+        chunks = list(U.rand_chunks(rng, shape))
+        single = rng.random() < 0.7
+        if single:
+            chunks[axis] = (shape[axis],)
+        scen = ["seq", "persist", "joint", "expr"][i % 4]
+        keepdims = True if scen == "expr" else rng.random() < 0.7
+        r = rng.random()
+        isnan = kind == "nan"
+        if nd == 1 and scen != "expr" and not isnan and rng.random() < 0.3:
+            t = {"kind": "pct", "q": rng.choice([[50], [0, 25, 50, 100], [10, 90]]),
+                 "method": rng.choice(["linear", "lower", "higher", "nearest", "midpoint"])}
+        elif r < 0.4 or scen == "expr" and r < 0.7:
+            op = rng.choice(["nanmedian", "nanquantile"]) if isnan else rng.choice(["median", "median", "nanmedian", "quantile", "nanquantile"])
+            t = {"kind": "quant", "op": op, "axis": axis, "keepdims": keepdims}
+            if "quantile" in op:
+                t["q"] = rng.choice([0.5, 0.25, 0.0, 1.0])
+                t["method"] = rng.choice(["linear", "lower", "higher", "nearest", "midpoint"])
+        elif r < 0.6 and scen != "expr" and not isnan:
+            ln = shape[axis]
+            t = {"kind": "topk", "k": rng.randint(1, ln) * rng.choice([1, -1]), "axis": axis, "arg": rng.random() < 0.5,
+                 "split_every": rng.choice([None, 2])}
+        elif r < 0.85:
+            op = rng.choice(["sum", "max", "min", "mean", "var", "prod"] if not isnan else ["nansum", "nanmax", "nanmean", "nanvar"])
+            t = {"kind": "reduce", "op": op, "axis": axis, "keepdims": keepdims, "split_every": rng.choice([None, 2])}
+        elif r < 0.93 and not isnan:
+            t = {"kind": "arg", "op": rng.choice(["argmin", "argmax"]), "axis": axis, "keepdims": keepdims}
+        else:
+            if scen == "expr":
+                t = {"kind": "reduce", "op": "nanmax" if isnan else "max", "axis": axis, "keepdims": True, "split_every": None}
+            else:
+                t = {"kind": "cum", "op": "nancumsum" if isnan else rng.choice(["cumsum", "cumprod"]), "axis": axis,
+                     "method": rng.choice(["sequential", "blelloch"])}
+                if t["op"] == "cumprod":
+                    a = np.sign(a).astype(a.dtype) if a.dtype.kind == "i" else np.round(a / 50.0, 2)
+        yield "shared", {"a": enc_arr(a), "chunks": [list(c) for c in chunks], "target": t, "scenario": scen,
+                         "single": single, "follow": sorted(rng.sample(range(6), rng.randint(2, 4))),
+                         "order": rng.randint(0, 2)}
+
+
 def _exhaustive_nd(ctx):
     """thorough tier: ALL chunkings (every composition of every axis) of shapes (4,3) and (3,2,2), and a
     sample of them in the quick tier."""
@@ -993,6 +1193,7 @@ def generate(ctx):
     yield from gen_topk(ctx, ctx.n(90, 1200))
     yield from gen_quant(ctx, ctx.n(40, 600))
     yield from gen_joint(ctx, ctx.n(60, 600))
+    yield from gen_shared(ctx, ctx.n(60, 800))
 
 
 def search(ctx):
@@ -1002,3 +1203,4 @@ def search(ctx):
     yield from gen_cum(ctx, ctx.n(100))
     yield from gen_topk(ctx, ctx.n(100))
     yield from gen_plan(ctx, ctx.n(100))
+    yield from gen_shared(ctx, ctx.n(100))
